@@ -485,6 +485,9 @@ func c04(r *Report) {
 		if lp := r.Use("", "Proxy.handleLoop"); lp != nil {
 			deadlineSitesRule(r, lp)
 		}
+		// ... also through a traffic-shaped listener: closing the shaped client connection (how one
+		// side's end is passed on) does not wait for the opposite copy direction
+		shapedCloseNeverWaitsRule(r)
 	})
 
 	r.Guard("C04.R6", "no unflushed buffer sits between the two sockets", func() {
@@ -643,7 +646,38 @@ func tunnelEOSRule(r *Report, hcr *ssa.Function, cops []tunnelCopier) {
 			s, ok := i.(*ssa.Send)
 			return ok && len(c.Fn.Params) > 2 && (s.Chan == ssa.Value(c.Fn.Params[2]) || isParamVal(s.Chan, c.Fn.Params[2]))
 		}
-		p := gf.PathTo([]ssa.Instruction{gf.Entry()}, true, isDone, isReturn)
+		// a deferred closure that sends on the done channel (registered on every path) does as well
+		isDeferredDone := func(i ssa.Instruction) bool {
+			d, ok := i.(*ssa.Defer)
+			if !ok {
+				return false
+			}
+			var fn *ssa.Function
+			switch x := d.Call.Value.(type) {
+			case *ssa.MakeClosure:
+				fn, _ = x.Fn.(*ssa.Function)
+			case *ssa.Function:
+				fn = x
+			}
+			if fn == nil || len(c.Fn.Params) <= 2 {
+				return false
+			}
+			for _, in := range instrs(fn) {
+				if s, isS := in.(*ssa.Send); isS {
+					ch := s.Chan
+					if ld, isLd := ch.(*ssa.UnOp); isLd {
+						ch = ld.X
+					}
+					if fv, isFv := ch.(*ssa.FreeVar); isFv {
+						if rv := resolveFree(fv); rv != nil && (rv == ssa.Value(c.Fn.Params[2]) || isParamVal(rv, c.Fn.Params[2]) || pathOf(rv) == c.Fn.Params[2].Name()) {
+							return true
+						}
+					}
+				}
+			}
+			return false
+		}
+		p := gf.PathTo([]ssa.Instruction{gf.Entry()}, true, func(i ssa.Instruction) bool { return isDone(i) || isDeferredDone(i) }, isReturn)
 		r.Decide("path", fnName(c.Fn)+": the copier signals its end on every path", p == nil, "a send on the done channel lies on every path to the return", "a copier can return without signalling (an early return on a copy error): the handler waits for it for ever, the connection is never released and Proxy.Close never returns", c.Fn.Pos())
 		break
 	}
